@@ -49,8 +49,6 @@ void DecodingTree::save(std::ostream &out) {
   partree->save(out);
   for (uint i = 0; i < leaves; i++)
     saveValue<uint>(out, symbols[i]);
-
-  delete partree;
 }
 
 DecodingTree *DecodingTree::load(std::istream &in) {
@@ -64,6 +62,7 @@ DecodingTree *DecodingTree::load(std::istream &in) {
     table->symbols.push_back(loadValue<uint>(in));
   table->buildTree(table->partree->getLength());
   delete table->partree;
+  table->partree = NULL;
 
   return table;
 }
@@ -108,4 +107,8 @@ void DecodingTree::buildTree(uint bits) {
   }
 }
 
-DecodingTree::~DecodingTree() { delete[] tree; }
+DecodingTree::~DecodingTree() {
+  delete[] tree;
+  // (the parentheses representation is owned by the tree; save() keeps it)
+  delete partree;
+}
